@@ -284,10 +284,22 @@ impl Sem {
         let mut fenv: Env = vec![HashMap::new()];
         for sc in env { for (n, b) in sc { if matches!(b, Bound::Fn(_)) { fenv[0].insert(n.clone(), b.clone()); } } }
         let mut params = Vec::new();
+        // `&impl Bounds` in argument position is an anonymous type parameter with those bounds
+        let mut anon: Vec<(String, Vec<String>)> = Vec::new();
         for (inp, a) in f.sig.inputs.iter().zip(args.iter()) {
             if let syn::FnArg::Typed(pt) = inp {
                 let name = if let syn::Pat::Ident(pi) = &*pt.pat { pi.ident.to_string() } else { pt.pat.to_token_stream().to_string() };
-                params.push((name.clone(), ty_text(&pt.ty)));
+                let mut tt = ty_text(&pt.ty);
+                if let syn::Type::Reference(r) = &*pt.ty {
+                    let mut el = &*r.elem;
+                    while let syn::Type::Paren(p) = el { el = &*p.elem; }
+                    if let syn::Type::ImplTrait(it) = el {
+                        let g = format!("__Impl{}", anon.len());
+                        anon.push((g.clone(), it.bounds.iter().map(|b| b.to_token_stream().to_string().replace(' ', "")).collect()));
+                        tt = format!("&{g}");
+                    }
+                }
+                params.push((name.clone(), tt));
                 fenv[0].insert(name, Bound::Val(a.clone()));
             }
         }
@@ -295,7 +307,7 @@ impl Sem {
             syn::GenericParam::Type(t) => Some((t.ident.to_string(), t.bounds.iter().map(|b| b.to_token_stream().to_string().replace(' ', "")).collect())),
             syn::GenericParam::Lifetime(l) => Some((l.lifetime.to_string(), vec![])),
             syn::GenericParam::Const(c) => Some((c.ident.to_string(), vec![])),
-        }).collect();
+        }).chain(anon).collect();
         let body = self.block(&f.block, &mut fenv);
         Tm::LocalCall { name: f.sig.ident.to_string(), generics, params, args, body: Box::new(body) }
     }
